@@ -644,6 +644,9 @@ const HISTORY_CLASSES: &[&str] = &["HighCard", "Pair", "TwoPair", "Trips", "Stra
 // full enumeration of all C(52,7) sets (thorough): hot loop run here, reported through the ctx
 
 pub fn run_all_sets(ctx: &mut Ctx, mode: Mode, shuffles: usize) {
+    if ctx.failed() {
+        return;
+    }
     let t0 = std::time::Instant::now();
     let t = table();
     // tasks = (c0, c1) prefixes
